@@ -478,6 +478,17 @@ def precheckUnique (keys : List (String × Val)) (sparse : Bool) (pfe : Option V
       else if seen.any (fun s => pyEq (.arr s) (.arr t)) then .error .dupKey
       else precheckUnique keys sparse pfe rest (seen ++ [t])
 
+/-- what a REFUSED creation leaves behind: the index does not come into being in any respect
+    (neither `indexes` nor `_ttl_indexes` change), but the scan of a unique index has read the
+    store (`self._store.documents`), so the expiry pass of the indexes that do exist has run,
+    persistently, before the duplicate was met -/
+def refusedCreate (now : Int) (c : Coll) (ix : Index) : Coll :=
+  if ix.unique then
+    match expire now c with
+    | .ok c1 => c1
+    | .error _ => c
+  else c
+
 def createIndexColl (now : Int) (c : Coll) (ix : Index) : Coll × R String :=
   match c.indexes.find? (fun i => i.name == ix.name) with
   | some old => if !ix.sameOptions old then (c, .error .opFail) else go
@@ -490,7 +501,7 @@ where
         pure c1
       else pure c
     match pre with
-    | .error e => (c, .error e)
+    | .error e => (refusedCreate now c ix, .error e)
     | .ok c1 =>
       let put (l : List Index) : List Index :=
         if l.any (fun i => i.name == ix.name) then l.map (fun i => if i.name == ix.name then ix else i)
